@@ -73,6 +73,7 @@ class C05(Machine):
                    "source_perturbed_after_derivation",
                    "returned_arrays_edited_by_caller",
                    "edge_list_unsorted",
+                   "attribute_matrix_not_c_contiguous",
                    "input_matrix_cleared_after_derivation",
                    "igraph_edges_unsorted")
     faults_na = ("message_loss", "message_duplication", "partition",
@@ -180,6 +181,15 @@ class C05(Machine):
 
         def attr_matrix(s):
             W = G.matrix(n, s) if directed else G.sym_matrix(n, s)
+            # the caller's matrix in any memory layout: C, Fortran, or a
+            # transposed view
+            lay = s % 3
+            if lay == 1:
+                W = np.asfortranarray(W)
+            elif lay == 2:
+                W = np.ascontiguousarray(W.T).T
+            if lay:
+                R.probe("attribute_matrix_not_c_contiguous")
             return W
         m = Model(A, directed, w, {k: attr_matrix(s)
                                    for k, s in g["attrs"].items()})
